@@ -4,6 +4,7 @@ pair by pair (all 17 × 17 atomic types, all six operators), outside the finding
 -/
 import EPV.Lemmas.CompareBasic
 import EPV.Lemmas.CompareFindings
+import EPV.Lemmas.CalendarSpec
 set_option linter.unusedSimpArgs false
 namespace EPV.Cmp
 open EPV.CmpSpec EPV.CmpFind
@@ -155,6 +156,43 @@ theorem valuePair_numeric (m : Mode) (op : Op) (a b : Atom) (i j : Nat)
       · simp
       · obtain ⟨hl, hg⟩ := numEq_not_lt hq
         simp [hl, hg]
+
+/-- year starts three years apart are more than 729 days apart (closed form of C11's calendar) -/
+theorem dBY_gap (a b : Int) (h : a + 3 ≤ b) :
+    EPV.Timeline.daysBeforeYearC (a + 1) + 730 ≤ EPV.Timeline.daysBeforeYearC b := by
+  unfold EPV.Timeline.daysBeforeYearC; omega
+
+/-- CALENDAR CONSISTENCY, proved: with timezones within ±14:00, date/time values whose local years
+(`DT.year` = C11's `yearOfDay` of the local day) differ by more than two are ordered by instant as by
+year — the fact that makes the "compare the year numbers" shortcut of `_compare` sound -/
+theorem dtFarOK_of_tzOK (x y : DT) (hx : x.tzOK = true) (hy : y.tzOK = true) : dtFarOK x y = true := by
+  have key : ∀ u v : DT, u.tzOK = true → v.tzOK = true → u.year + 2 < v.year → u.inst < v.inst := by
+    intro u v hu hv h
+    have h1 := EPV.Timeline.yearOfDay_spec (u.t / 86400)
+    have h2 := EPV.Timeline.yearOfDay_spec (v.t / 86400)
+    have h3 := dBY_gap u.year v.year (by omega)
+    unfold DT.year at h h3
+    have hu' : -840 ≤ u.tz.getD 0 ∧ u.tz.getD 0 ≤ 840 := by
+      unfold DT.tzOK at hu; cases hz : u.tz <;> simp_all
+    have hv' : -840 ≤ v.tz.getD 0 ∧ v.tz.getD 0 ≤ 840 := by
+      unfold DT.tzOK at hv; cases hz : v.tz <;> simp_all
+    unfold DT.inst
+    omega
+  simp only [dtFarOK, Bool.and_eq_true, Bool.or_eq_true, Bool.not_eq_true', decide_eq_false_iff_not,
+    decide_eq_true_eq]
+  constructor
+  · by_cases h : x.year + 2 < y.year
+    · exact Or.inr (key x y hx hy h)
+    · exact Or.inl h
+  · by_cases h : y.year + 2 < x.year
+    · exact Or.inr (key y x hy hx h)
+    · exact Or.inl h
+
+theorem dtConsistent_of_tzOK (a b : Atom) (ha : atomTzOK a = true) (hb : atomTzOK b = true) :
+    dtConsistent a b = true := by
+  unfold dtConsistent
+  simp only [Bool.or_eq_true, Bool.not_eq_true']
+  exact Or.inr (dtFarOK_of_tzOK _ _ ha hb)
 
 theorem DT.inst_eq_instant (d : DT) : d.inst = instant d := by
   unfold DT.inst instant
